@@ -25,7 +25,7 @@ def ClockOK (store : Store) (ts : Nat) : Prop :=
 /-- Under the clock hypothesis a new leader starts in a well-formed initial state: all of C01, C02, C04 apply. -/
 theorem new_leader_init (cfg : Cfg) (store : Store) (ts : Nat) (h : ClockOK store ts) :
     C02.Init (newLeader cfg store ts) ∧ C02.StoreOK (newLeader cfg store ts) :=
-  ⟨⟨⟨rfl, rfl, rfl, rfl⟩, rfl, rfl, rfl⟩, h⟩
+  ⟨⟨⟨rfl, rfl, rfl, rfl, rfl⟩, rfl, rfl, rfl⟩, h⟩
 
 /-- Counterexample to `new_revisions_above_store` as stated: the store holding `(/a, 5)` is also the
 encoding of the "decoding" `(/a, 2 ^ 64 + 5)`; the new leader (ts = 5) hands out revision 6. -/
